@@ -100,89 +100,124 @@ func runC02(c *Ctx) {
 				}
 			})
 		}
+		// (a) at most one fetch-and-increment per call (two would skip a token); plain loads do not count
 		iv := PathQuery{Fn: daNext, Weight: func(in ssa.Instruction) (int, int) {
-			if cc := CC(in); onI(cc) {
+			if cc := CC(in); onI(cc) && rmw[CalleeObj(cc).Name()] {
 				return 1, 1
 			}
 			return 0, 0
 		}}.Count()
-		c.Check(iv.Is(1, 1) && len(rmwCalls) == 1, "O2.1", fk(daNext)+":one-fetch-and-increment-per-call", daNext.Pos(),
-			fmt.Sprintf("operations on the token index per path of Next = %v (want [1,1]), read-modify-write calls: %d (want 1)", iv, len(rmwCalls)))
-		if len(rmwCalls) == 1 {
-			rc := rmwCalls[0]
+		c.Check(!iv.NoPath && iv.Max <= 1, "O2.1", fk(daNext)+":one-fetch-and-increment-per-call", daNext.Pos(),
+			fmt.Sprintf("fetch-and-increment operations on the token index per path of Next = %v (want at most 1)", iv))
+		for _, rc := range rmwCalls {
 			if CalleeObj(&rc.Call).Name() == "Add" {
 				k, isC := ConstInt(rc.Call.Args[1])
 				c.Check(isC && k == 1, "O2.1", fk(daNext)+":increment-by-one", rc.Pos(), "the index advances by exactly 1 per token")
 			}
-			fromRMW := func(v ssa.Value) bool {
-				return DerivesOnly(v, true, func(r ssa.Value) bool {
-					if r == ssa.Value(rc) {
-						return true
+		}
+		// the value as computed: a helper's parameter is what its only call site passes, the result of a helper what
+		// its only return yields
+		resolve := func(v ssa.Value) ssa.Value {
+			for d := 0; d < 4; d++ {
+				v = Strip(v)
+				if pr, isP := v.(*ssa.Parameter); isP {
+					site := SoleCallSite(pr.Parent())
+					if site == nil {
+						return v
 					}
-					_, isC := r.(*ssa.Const)
-					return isC
-				}) && DerivesAny(v, true, func(r ssa.Value) bool { return r == ssa.Value(rc) })
-			}
-			// the value as computed: a helper's parameter is what its only call site passes, the result of a helper
-			// what its only return yields
-			resolve := func(v ssa.Value) ssa.Value {
-				for d := 0; d < 4; d++ {
-					v = Strip(v)
-					if pr, isP := v.(*ssa.Parameter); isP {
-						site := SoleCallSite(pr.Parent())
-						if site == nil {
-							return v
+					for i, q := range pr.Parent().Params {
+						if a := ArgOfParam(site, pr.Parent(), i); q == pr && a != nil {
+							v = a
 						}
-						for i, q := range pr.Parent().Params {
-							if a := ArgOfParam(site, pr.Parent(), i); q == pr && a != nil {
-								v = a
-							}
-						}
+					}
+					continue
+				}
+				if cl, isC := v.(*ssa.Call); isC && !onI(&cl.Call) && cl.Call.StaticCallee() != nil && PkgOf(cl.Call.StaticCallee()) == PkgOf(daNext) {
+					if ts := ThroughReturns(v); len(ts) == 1 && ts[0] != v {
+						v = ts[0]
 						continue
 					}
-					if cl, isC := v.(*ssa.Call); isC && cl != rc && cl.Call.StaticCallee() != nil && PkgOf(cl.Call.StaticCallee()) == PkgOf(daNext) {
-						if ts := ThroughReturns(v); len(ts) == 1 && ts[0] != v {
-							v = ts[0]
-							continue
-						}
-					}
-					return v
 				}
 				return v
 			}
-			// index = result - 1
-			idxOK := func(v ssa.Value) bool {
-				b, ok := resolve(v).(*ssa.BinOp)
-				if !ok || b.Op != token.SUB || b.X != ssa.Value(rc) {
-					return false
+			return v
+		}
+		isLoadI := func(v ssa.Value) bool {
+			cl, ok := Strip(v).(*ssa.Call)
+			return ok && onI(&cl.Call) && CalleeObj(&cl.Call).Name() == "Load"
+		}
+		// (b) an index is claimed: (fetch-and-increment result - 1), or a loaded value v under a successful
+		// CompareAndSwap(v, v+1) at the place it is used
+		claimed := func(v ssa.Value, at ssa.Instruction) bool {
+			r := resolve(v)
+			if b, ok := r.(*ssa.BinOp); ok && b.Op == token.SUB {
+				if rc, isC := b.X.(*ssa.Call); isC && onI(&rc.Call) && rmw[CalleeObj(&rc.Call).Name()] {
+					k, isK := ConstInt(b.Y)
+					return isK && k == 1
 				}
-				k, isC := ConstInt(b.Y)
-				return isC && k == 1
 			}
-			nUse := 0
-			for _, dg := range daRegion {
-				EachInstr(dg, func(in ssa.Instruction) {
-					// comparison with n
-					if b, ok := in.(*ssa.BinOp); ok {
-						switch b.Op {
-						case token.LSS, token.LEQ, token.GTR, token.GEQ, token.EQL, token.NEQ:
-							for i, side := range []ssa.Value{b.X, b.Y} {
-								other := []ssa.Value{b.Y, b.X}[i]
-								if IsFieldLoad(other, "doAtSchedule", "n") {
-									nUse++
-									c.Check(idxOK(side) && fromRMW(resolve(side)), "O2.1", fk(daNext)+":budget-compared-with-the-drawn-index", b.Pos(), "the value compared with n must be (fetch-and-increment result - 1)")
-								}
+			if isLoadI(r) {
+				for _, bf := range BoolFactsAt(at) {
+					cl, _ := bf.Subj.(*ssa.Call)
+					if cl == nil || !bf.Val || !onI(&cl.Call) {
+						continue
+					}
+					if n := CalleeObj(&cl.Call).Name(); n != "CompareAndSwap" && n != "CAS" {
+						continue
+					}
+					if len(cl.Call.Args) == 3 && Strip(cl.Call.Args[1]) == Strip(r) {
+						if nb, ok := Strip(cl.Call.Args[2]).(*ssa.BinOp); ok && nb.Op == token.ADD && Strip(nb.X) == Strip(r) {
+							if k, isK := ConstInt(nb.Y); isK && k == 1 {
+								return true
 							}
 						}
 					}
-					if cc := CC(in); cc != nil && IsFieldCall(cc, "doAtSchedule", "doAt") {
-						nUse++
-						c.Check(len(cc.Args) == 1 && idxOK(cc.Args[0]), "O2.1", fk(dg)+":doAt-of-the-drawn-index", in.Pos(), "doAt must be evaluated at (fetch-and-increment result - 1)")
-					}
-				})
+				}
 			}
-			c.Floor("O2.1", "uses of the drawn index in doAtSchedule.Next", nUse, 2)
+			return false
 		}
+		// (c) a token is returned only for a claimed index known to be below n; "no tokens" only on index >= n, the
+		// index being the claimed one or a fresh load of the counter (the counter only grows)
+		cmpWithN := func(at ssa.Instruction, want func(v ssa.Value) bool) (below, notBelow bool) {
+			for _, f := range CmpFactsAt(at) {
+				f = f.Canon() // X < Y or X <= Y
+				if IsFieldLoad(f.Y, "doAtSchedule", "n") && f.Op == token.LSS && want(f.X) {
+					below = true // v < n
+				}
+				if IsFieldLoad(f.X, "doAtSchedule", "n") && f.Op == token.LEQ && want(f.Y) {
+					notBelow = true // n <= v
+				}
+			}
+			return
+		}
+		nUse, nRet := 0, 0
+		for _, r := range DelegatedReturns(daNext) {
+			if len(r.Results) != 2 {
+				continue
+			}
+			okv, isC := ConstCond(r.Results[1])
+			if !isC {
+				continue // O1.3 reports a non-constant ok
+			}
+			nRet++
+			if okv {
+				below, _ := cmpWithN(r, func(v ssa.Value) bool { return claimed(v, r) })
+				c.Check(below, "O2.1", fk(r.Parent())+":token-only-for-a-claimed-index-below-n", r.Pos(), "a token is returned only where the claimed index (fetch-and-increment result - 1, or a value swapped in by a successful CompareAndSwap(v, v+1)) is known to be < n")
+			} else {
+				_, notBelow := cmpWithN(r, func(v ssa.Value) bool { return claimed(v, r) || isLoadI(resolve(v)) })
+				c.Check(notBelow, "O2.1", fk(r.Parent())+":exhausted-only-on-index-not-below-n", r.Pos(), "'no tokens left' is returned only where the claimed index or the counter itself is known to be >= n")
+			}
+		}
+		c.Floor("O2.1", "returns of doAtSchedule.Next with a constant ok", nRet, 2)
+		for _, dg := range daRegion {
+			EachInstr(dg, func(in ssa.Instruction) {
+				if cc := CC(in); cc != nil && IsFieldCall(cc, "doAtSchedule", "doAt") {
+					nUse++
+					c.Check(len(cc.Args) == 1 && claimed(cc.Args[0], in), "O2.1", fk(dg)+":doAt-of-the-drawn-index", in.Pos(), "doAt must be evaluated at the claimed index")
+				}
+			})
+		}
+		c.Floor("O2.1", "uses of the drawn index in doAtSchedule.Next", nUse, 1)
 		nOps := 0
 		for _, g := range pkgFns {
 			EachInstr(g, func(in ssa.Instruction) {
@@ -192,7 +227,19 @@ func runC02(c *Ctx) {
 				}
 				nOps++
 				name := CalleeObj(cc).Name()
-				c.Check(!forbidden[name], "O2.1", fk(g)+":no-store-to-token-index", in.Pos(), "method "+name+" on the token index: only Inc/Add/Load are allowed (a Load-then-Store pair hands one token to two callers)")
+				okCAS := false
+				if (name == "CompareAndSwap" || name == "CAS") && len(cc.Args) == 3 {
+					// CompareAndSwap(v, v+1) with v a load of the counter: an atomic claim of index v
+					old := Strip(cc.Args[1])
+					if lc, isL := old.(*ssa.Call); isL && onI(&lc.Call) && CalleeObj(&lc.Call).Name() == "Load" {
+						if nb, isB := Strip(cc.Args[2]).(*ssa.BinOp); isB && nb.Op == token.ADD && Strip(nb.X) == old {
+							if k, isK := ConstInt(nb.Y); isK && k == 1 {
+								okCAS = true
+							}
+						}
+					}
+				}
+				c.Check(!forbidden[name] || okCAS, "O2.1", fk(g)+":no-store-to-token-index", in.Pos(), "method "+name+" on the token index: only Inc/Add/Load and CompareAndSwap(v, v+1) of a loaded v are allowed (a Load-then-Store pair hands one token to two callers)")
 			})
 		}
 		c.Floor("O2.1", "operations on doAtSchedule.i in the package", nOps, 2)
